@@ -1,16 +1,16 @@
 """C01 — parsing then re-serialising any spec-valid LSP JSON value loses nothing.
 
-What is proved in Lean (all inputs): the node-level facts the round trip rests on — the class
-function reads exactly the declared wire names and fails on a missing required one
-(Props/Conv.lean), the unstructure function writes exactly the non-omitted wire names
-(`unstructFields_keys`), the null rule per attribute (C10), range validators (C12), enum handling
-(C13) — plus kernel-checked side conditions on the regenerated environment: every reachable union
-has parsing support, every hook probes declared keys only, each open known finding is reproduced by
-the model on its witness.  What is NOT proved: the composition of these into the round-trip theorem
-for arbitrary nesting and every hook decision (C01_partial in DESIGN.md).  That part is decided by
-running the model's executable definitions and the real converter on the same generated valid
-values (every root type: min, max, random; every alternative of every union occurrence, nested
-unions, heterogeneous arrays) and by the direct round-trip oracle on the real converter.
+Proved in Lean for ALL inputs (any size, any nesting, every union alternative), instantiated per run on the
+regenerated environment: `C01_roundtrip` = T1 ∘ T2 (Props/Total.lean, Props/Unstruct.lean, Props/C01.lean):
+every JSON value with a typed reading (`rep`) at a checked annotation is structured successfully into a typed
+reading of it, which unstructures successfully (both calling conventions) to a value related to the input by
+the documented null rule (`nrel`, Core/Norm.lean: nothing the input declares with a non-null value disappears
+or changes).  Kernel obligations per run: every dispatch program passes the dispatch checker (`T1_progs`), the
+class table facts of T1 and T2 (`T1_classes`, `T2_classes`), the theorems apply to every generated class
+(`T1_roots`), the excluded annotations are exactly the open known findings.
+Partial: that `rep` coincides with metamodel validity is checked on the generated validity stream (every
+generated valid value must have a typed reading, and `nrel`/`rep` are evaluated on the model's output, which
+the correspondence compares with the real converter's output), not proved.  Direct oracle: `convcheck.py`.
 """
 import json
 
@@ -40,7 +40,7 @@ def ops_fn(S):
 
 def run(ctx):
     ctx.level = "other"
-    ctx.extra["explanation"] = ("partial Lean proof (node-level theorems + kernel-checked side conditions, counted under obligations) "
+    ctx.extra["explanation"] = ("Lean proof of the round-trip theorem for all values with a typed reading (T1, T2; kernel-checked table obligations per run) "
                                 "+ model-vs-implementation correspondence + direct oracle on the real converter; see level_note")
     ctx.rule = ("metamodel-valid values of every root type (387 structures, 22 aliases, 164 message classes): minimal, maximal, "
                 "seeded random (optional subsets, union alternatives, custom enum values, LSPAny payloads, boundary integers, non-ASCII), "
@@ -48,7 +48,7 @@ def run(ctx):
                 "round trip through Lean model and real converter compared; oracle = type-directed comparison up to the null rule; "
                 "distinct = distinct (root, JSON text); non-trivial = all (each reaches at least one class function)")
     convprop.run(ctx, "C01", ops_fn=ops_fn, inst_fn=lambda: [[("Inst", INST)]],
-                 theorems=["C01_probes_declared", "C01_no_forbid"],
+                 theorems=["C01_probes_declared", "C01_no_forbid"], total=True,
                  assumptions=["an explicit JSON null for an optional property whose type is not null-admitting reads as unset and is left out (forced by C10); JSON numbers compare numerically (1 == 1.0)"])
 
 
